@@ -400,7 +400,7 @@ class Grammar:
     def run(self):
         job = self.job
         keys = sorted(self.table)
-        if job.get("only"):
+        if job.get("only") is not None:
             keys = [tuple(x) for x in job["only"] if tuple(x) in self.table]
         shard, n = job["shard"], job["nshards"]
         kinds = set(job.get("kinds") or ["commit", "tag", "tree", "blob"])
